@@ -10,7 +10,11 @@
    hosts holding the secret value / level-1 key using specific.Deriver / generic.Deriver, DeriveSV
    from the AS secret) and logs symbolic descriptions + key identities; and calls the real
    FakeProvider.GetKeyWithinAcceptanceWindow around epoch / window / grace boundaries.
-3. TLC validates: same key <=> same documented term (DRKeyOps), selected epochs satisfy MaySelect.
+   Epoch rotation: two real engines asked at explicit validity times walking across epoch boundaries,
+   with prefetch requests (now + epoch length) and the cleaners (explicit cut-off) interleaved; model
+   DRKeyEpoch.tla (stores of both services over time) is explored exhaustively.
+3. TLC validates: same key <=> same documented term (DRKeyOps), selected epochs satisfy MaySelect, every
+   answer is the key of the epoch containing the requested time, one key per epoch on every route.
 """
 import json
 
@@ -30,15 +34,22 @@ def run(c):
         c.notes.append("model variant AllowGenericL2 violates Separated (specific level-2 derivation for "
                        "protocol 0 collides with a generic derivation of a niche protocol): model only; the "
                        "service refuses protocol 0 at level 2 (C40)")
+        c.mc("DRKeyEpoch", "DRKeyEpochMC.%s.cfg" % c.tier, workers=4, timeout=1500)
+        if c.thorough:
+            b = c.tlc("DRKeyEpoch", "DRKeyEpochMC.inclusive.cfg", workers=2, timeout=900)
+            if "AnswerInEpoch" not in b.inv_violated:
+                raise vlib.Infra("variant Lookup=inclusive no longer violates AnswerInEpoch:\n" + b.out[-2000:])
+            c.notes.append("model variant Lookup=inclusive (t <= EpochEnd) answers with the epoch that just ended at "
+                           "the boundary instant: violates AnswerInEpoch (model only)")
         trace = c.scratch + "/derive.ndjson"
         if c.thorough:
-            args = ["-batches", 40, "-n", 14, "-windows", 400]
+            args = ["-batches", 40, "-n", 14, "-windows", 400, "-epochs", 400]
         else:
-            args = ["-batches", 6, "-n", 12, "-windows", 40]
+            args = ["-batches", 6, "-n", 12, "-windows", 40, "-epochs", 40]
         c.run_driver(drv, ["-out", trace] + args)
     r = c.validate("DRKeyDeriveTrace", "DRKeyDeriveTrace.cfg", trace, timeout=1500)
     lines = _crypto.judge_cases(c, r, trace, vlib, whole_trace=_crypto.reset_slice)
-    ntr = nkey = nsel = 0
+    ntr = nkey = nsel = nl1 = 0
     shapes = set()
     for ln in lines:
         e = json.loads(ln)
@@ -47,6 +58,11 @@ def run(c):
         elif e["ev"] == "key":
             nkey += 1
             shapes.add((e["who"], e["kt"], e["mode"], min(e["proto"], 2), e["srcHost"][:4], e["dstHost"][:4]))
+        elif e["ev"] == "l1":
+            nl1 += 1
+            if e["ok"]:
+                d = max(1, e["ee"] - e["eb"])
+                shapes.add(("l1", e["who"], e["fetched"], e["t"] - e["eb"] in (0, d - 1), (e["t"] - e["now"]) // d))
         elif e["ev"] == "select":
             nsel += 1
             if e["ok"]:
@@ -55,7 +71,9 @@ def run(c):
     if not c.replay and (st.get("selected", 0) == 0 or st.get("sameterm", 0) == 0):
         raise vlib.Infra("vacuity guard: no key selected / no two routes produced the same term: %s" % st)
     c.cov["traces_validated_against_impl"] += ntr
-    c.cov["evaluations"] += nkey + nsel
+    if not c.replay and nl1 == 0:
+        raise vlib.Infra("vacuity guard: no epoch-rotation answers")
+    c.cov["evaluations"] += nkey + nsel + nl1
     c.cov["distinct_nontrivial"] += len(shapes)
     c.cov["rule"] = ("one evaluation = one real derivation or one real window selection judged by TLC; distinct = "
                      "distinct (route, key type, derivation, protocol class, host kinds) resp. (selected epoch, "
